@@ -1748,7 +1748,10 @@ def compare(task, value, sh, prop="C01", what=""):
     s_model = tuple(sh.axes[g[0]].s for g in gr)
     if tuple(value.s) != s_model:
         raise V(prop, "signature", "%s: signature %s, model says %s" % (what, value.s, s_model))
-    y = unfuse_all(value)
+    try:
+        y = unfuse_all(value)
+    except Exception as e:  # noqa: BLE001 -- a returned tensor that cannot be unfused is malformed
+        raise V(prop, "result-cannot-be-unfused", "%s: complete unfusing of the result raises %s: %s" % (what, type(e).__name__, str(e)[:120]))
     if not y.isdiag:
         if y.ndim != len(sh.axes):
             raise V(prop, "rank-after-unfuse", "%s: rank %d after complete unfusing, model says %d" % (what, y.ndim, len(sh.axes)))
